@@ -143,6 +143,24 @@ def generate(seed):
     g = G(seed)
     maxdepth = g.r.choice([1, 2, 2])
     root = g.machine(0, maxdepth, 'p')
+    # root-level list deferral (C05) inside the common subset of C13: one dedicated event type E6, deferred by some
+    # simple states of ONE root region and handled by the other simple states of that region (no state both defers
+    # and handles it, no other region reacts to it); own random stream
+    dr = random.Random(seed * 17 + 3)
+    if dr.random() < 0.7:
+        ri = dr.randrange(len(root['regions']))
+        pre = root['regions'][ri][:-1]
+        names = [n for n, st in root['states'].items() if st['kind'] == 'simple' and n[:-1] == pre]
+        if len(names) >= 2:
+            dr.shuffle(names)
+            ndef = dr.randrange(1, len(names))
+            for n in names[:ndef]:
+                root['states'][n]['deferred'] = ['E6']
+            for n in names[ndef:]:
+                if len(root['table']) >= 20:
+                    break
+                tgt = dr.choice([None, dr.choice(names)])
+                root['table'].append(Row(n, 'E6', tgt, guard=(dr.randrange(8) if dr.random() < 0.4 else None), actions=['h6']))
     # flags (C17): passive, so they are drawn from a separate stream - the machine structure of a seed stays put;
     # on simple states and on submachine states at every level (a flag 2+ levels down must be seen from the root)
     fr = random.Random(seed * 31 + 5)
@@ -156,7 +174,7 @@ def generate(seed):
             if st['kind'] == 'sub':
                 flag(st['machine'], depth + 1)
     flag(root, 0)
-    return {'name': 'G%d' % seed, 'events': list(EVENTS), 'flags': ['F0', 'F1', 'F2'], 'root': root}
+    return {'name': 'G%d' % seed, 'events': list(EVENTS) + ['E6'], 'flags': ['F0', 'F1', 'F2'], 'root': root}
 
 
 # ---------------------------------------------------------------------------------------------------------
